@@ -2,6 +2,8 @@ import EaselModel.Dist.ExpThm
 import EaselModel.Dist.GumbelThm
 import EaselModel.Dist.WeiThm
 import EaselModel.Dist.GevThm
+import EaselModel.Dist.SpecialFamThm
+import EaselModel.Dist.MixThm
 import EaselModel.Dist.Edge
 /-! # C10 — each distribution's pdf, cdf, survival, log and inverse functions agree
 
@@ -188,6 +190,74 @@ theorem gev_outside_support {α : Type} [Add α] [Sub α] [Mul α] [Div α] [Neg
 example : esl_gev_logsurv (-10 : ℝ) 0 1 0.5 = 0.0 :=
   (gev_outside_support (x := (-10 : ℝ)) (mu := 0) (l := 1) (a := 0.5) (by simp; norm_num) (by norm_num)).2.2.1
     (by norm_num) |>.2.2.2
+
+/-! ## Families on the special functions: gamma, stretched exponential, normal, log-normal
+
+`esl_stats_LogGamma` / `esl_stats_IncompleteGamma` enter as the hand model of `Dist/Special.lean` read over `ℝ`
+(`realIncGamma`, `some (P,Q)` where the C function returns `eslOK`), `esl_stats_erfc` as an opaque symbol.
+`_partial`: the full statement also needs "P is the regularised incomplete gamma function / erfc is the complementary
+error function", monotone cdf, inverse and derivative; those are NOT proved (L0 monitors compare with mpmath). -/
+
+/-- gamma: cdf + surv = 1 exactly wherever `IncompleteGamma` converges (it forms `Q = 1 - P` or `P = 1 - Q`), the log
+    versions are the logarithms of the plain versions, `pdf = exp logpdf` on the interior of the support (repaired: the
+    code tested `x < 0` instead of `x < μ`), and at `x = μ`, `τ = 1` the density is `λ` (repaired: was NaN). -/
+theorem gam_laws_partial {x μ l τ : ℝ} :
+    ((0 < l * (x - μ) → (realIncGamma τ (l * (x - μ))).isSome) → esl_gam_cdf x μ l τ + esl_gam_surv x μ l τ = 1) ∧
+      (0 < l * (x - μ) → esl_gam_logcdf x μ l τ = log (esl_gam_cdf x μ l τ)) ∧
+      esl_gam_logsurv x μ l τ = log (esl_gam_surv x μ l τ) ∧
+      (0 < l * (x - μ) → esl_gam_pdf x μ l τ = exp (esl_gam_logpdf x μ l τ)) ∧
+      (esl_gam_pdf μ μ l 1 = l ∧ esl_gam_logpdf μ μ l 1 = log l) :=
+  ⟨SpecialFamThm.gam_cdf_add_surv, SpecialFamThm.gam_logcdf, SpecialFamThm.gam_logsurv, SpecialFamThm.gam_pdf_eq_exp_logpdf,
+    SpecialFamThm.gam_pdf_at_mu_tau1 μ l⟩
+
+/-- stretched exponential: cdf + surv = 1 wherever `IncompleteGamma` converges; log versions are the logarithms. -/
+theorem sxp_laws_partial {x μ l τ : ℝ} (hl : 0 < l) (hτ : 0 < τ) :
+    ((μ < x → (realIncGamma (1 / τ) (exp (τ * log (l * (x - μ))))).isSome) → esl_sxp_cdf x μ l τ + esl_sxp_surv x μ l τ = 1) ∧
+      (μ < x → esl_sxp_logcdf x μ l τ = log (esl_sxp_cdf x μ l τ)) ∧ esl_sxp_logsurv x μ l τ = log (esl_sxp_surv x μ l τ) ∧
+      (μ ≤ x → esl_sxp_logpdf x μ l τ = log (esl_sxp_pdf x μ l τ)) :=
+  ⟨SpecialFamThm.sxp_cdf_add_surv, SpecialFamThm.sxp_logcdf, SpecialFamThm.sxp_logsurv, SpecialFamThm.sxp_logpdf hl hτ⟩
+
+/-- normal: given the reflection law and antitonicity of `erfc` (hypotheses, not axioms): cdf + surv = 1 and the cdf is
+    non-decreasing; `logpdf = log pdf` unconditionally (`σ > 0`).  Log-normal: `logpdf = log pdf` on `x > 0`. -/
+theorem normal_laws_partial {μ σ : ℝ} (hσ : 0 < σ) :
+    ((∀ t : ℝ, Num.erfc (-t) = 2 - Num.erfc t) → ∀ x, esl_normal_cdf x μ σ + esl_normal_surv x μ σ = 1) ∧
+      (Antitone (Num.erfc : ℝ → ℝ) → Monotone (fun x => esl_normal_cdf x μ σ)) ∧
+      (∀ x, esl_normal_logpdf x μ σ = log (esl_normal_pdf x μ σ)) ∧
+      (∀ x, 0 < x → esl_lognormal_logpdf x μ σ = log (esl_lognormal_pdf x μ σ)) :=
+  ⟨fun h x => SpecialFamThm.normal_cdf_add_surv h x μ σ, fun h => SpecialFamThm.normal_cdf_mono h hσ,
+    fun _ => SpecialFamThm.normal_logpdf hσ, fun _ hx => SpecialFamThm.lognormal_logpdf hx hσ⟩
+
+/-- Edge, every carrier: gamma below the support (`λ(x-μ) < 0`, resp. `≤ 0`), stretched exponential below `μ`, log-normal
+    at `0`: density `0`, cdf `0`, surv `1`, log versions `-inf`, `-inf`, `0`. -/
+theorem gam_sxp_outside_support {α : Type} [Add α] [Sub α] [Mul α] [Div α] [Neg α] [OfScientific α] [LT α] [LE α]
+    [DecidableLT α] [DecidableLE α] [Num α] {x mu l t : α} :
+    (l * (x - mu) < 0.0 → esl_gam_pdf x mu l t = 0.0 ∧ esl_gam_logpdf x mu l t = -Num.inf) ∧
+    (l * (x - mu) ≤ 0.0 → esl_gam_cdf x mu l t = 0.0 ∧ esl_gam_surv x mu l t = 1.0 ∧ esl_gam_logcdf x mu l t = -Num.inf ∧
+      esl_gam_logsurv x mu l t = 0.0) ∧
+    (x < mu → esl_sxp_pdf x mu l t = 0.0 ∧ esl_sxp_logpdf x mu l t = -Num.inf) ∧
+    (x ≤ mu → esl_sxp_cdf x mu l t = 0.0 ∧ esl_sxp_surv x mu l t = 1.0 ∧ esl_sxp_logcdf x mu l t = -Num.inf ∧
+      esl_sxp_logsurv x mu l t = 0.0) ∧
+    (Num.eqb x 0.0 = true → esl_lognormal_pdf x mu l = 0.0 ∧ esl_lognormal_logpdf x mu l = -Num.inf) :=
+  ⟨fun h => ⟨Edge.gam_pdf_below h, Edge.gam_logpdf_below h⟩,
+    fun h => ⟨Edge.gam_cdf_below h, Edge.gam_surv_below h, Edge.gam_logcdf_below h, Edge.gam_logsurv_below h⟩,
+    fun h => ⟨Edge.sxp_pdf_below h, Edge.sxp_logpdf_below h⟩,
+    fun h => ⟨Edge.sxp_cdf_below h, Edge.sxp_surv_below h, Edge.sxp_logcdf_below h, Edge.sxp_logsurv_below h⟩,
+    fun h => ⟨Edge.lognormal_pdf_zero h, Edge.lognormal_logpdf_zero h⟩⟩
+
+/-! ## Mixtures (hand model `Dist/Mix.lean` of the `esl_hxp_*` / `esl_mixgev_*` loops over the translated components) -/
+
+/-- hyperexponential: for non-negative coefficients `q_k` and rates `λ_k`, cdf + surv is the coefficient sum (1 for a
+    normalised mixture) within `2.5e-17` of it — convex combinations inherit the component law.
+    `_partial`: monotonicity, the log versions through `esl_vec_DLogSum`, the bisection inverse, and all of `esl_mixgev_*`
+    are covered by the bit-exact run and the L0 monitors only. -/
+theorem hxp_cdf_add_surv_partial (x mu : ℝ) (qs : List (ℝ × ℝ)) (hq : ∀ qp ∈ qs, 0 ≤ qp.1 ∧ 0 ≤ qp.2) :
+    (x < mu → Mix.hxp_cdf x mu qs + Mix.hxp_surv x mu qs = 1) ∧
+      (mu ≤ x → |Mix.hxp_cdf x mu qs + Mix.hxp_surv x mu qs - (qs.map Prod.fst).sum| ≤ 2.5e-17 * (qs.map Prod.fst).sum) :=
+  MixThm.hxp_cdf_add_surv x mu qs hq
+
+example : |Mix.hxp_cdf (1 : ℝ) 0 [(0.25, 1), (0.75, 2)] + Mix.hxp_surv (1 : ℝ) 0 [(0.25, 1), (0.75, 2)] -
+    ([(0.25, 1), (0.75, 2)].map Prod.fst).sum| ≤ 2.5e-17 * ([((0.25 : ℝ), (1 : ℝ)), (0.75, 2)].map Prod.fst).sum :=
+  (hxp_cdf_add_surv_partial 1 0 _ (by intro qp h; simp at h; rcases h with h | h <;> subst h <;> norm_num)).2 (by norm_num)
 
 /-! ## Sampling -/
 
